@@ -390,6 +390,12 @@ def run_check(check, tier, seed):
             ctx = multiprocessing.get_context("fork")
             with ctx.Pool(nworkers) as pool:
                 results = pool.map(_hyp_worker, jobs, chunksize=1)
+        generated = sum(r["stats"]["evaluations"] for r in results)
+        extra["examples_requested"] = per * nworkers
+        extra["examples_executed"] = generated
+        if generated < 0.5 * per * nworkers and not any(r.get("failure") for r in results):
+            # Hypothesis gave up early (e.g. examples overrunning its buffer): the run would silently explore little
+            harness_errors.append("only %d of %d requested examples were executed" % (generated, per * nworkers))
         for r in results:
             stats.merge_dict(r["stats"])
             if r.get("harness_error"):
